@@ -26,3 +26,28 @@ if i>=0: s=s[:i]
 s=s.rstrip('\n')+"\n\n"+sec
 open('/verif/DESIGN.md','w').write(s)
 print(len(rows),"rows")
+
+# §10: neutral refactorings
+rows=[]
+for p in sorted(glob.glob('/verif/neutral/*/meta.json')):
+    m=json.load(open(p))
+    rows.append(f"| `{m['id']}` | {m['keeps_property']} | {m['what']} | {' '.join(m.get('checks_run_quick',[])) or '-'} | {m['result']} |")
+sec10 = """## 10. Property-preserving refactorings (false-alarm resistance)
+
+The opposite experiment: sub-agents, again given only a property text and a scratch worktree,
+re-implemented the mechanism behind the property with a different strategy while keeping
+every behaviour the statement talks about (and passing the existing suite). The checks must
+stay silent on these trees. Three false alarms surfaced this way and were corrected (§8.3:
+would-block semantics, schedule-hash mismatch as exit 2, child operation budget); after the
+corrections every listed check exits 0 on every refactoring. The patches are kept under
+/verif/neutral/ as regression material for the checks themselves.
+
+| refactoring | property | what changes | quick checks run | result |
+|---|---|---|---|---|
+""" + "\n".join(rows) + "\n"
+s=open('/verif/DESIGN.md').read()
+i=s.find('## 10. Property-preserving')
+if i>=0: s=s[:i]
+s=s.rstrip('\n')+"\n\n"+sec10
+open('/verif/DESIGN.md','w').write(s)
+print(len(rows),"neutral rows")
